@@ -1,5 +1,6 @@
 import RsMatterVerif.Lemmas.Transport
 import RsMatterVerif.Lemmas.Dedup
+import RsMatterVerif.Lemmas.TwoNode
 /-!
 # C09 — reliable messaging delivers each message at most once and reports the truth
 
@@ -379,5 +380,223 @@ example : (List.range 6).map (fun n => backoffMs 300 n Consts.mrpJitterFixed) = 
 the real-valued protocol formula gives 7.2 ms at the last one — covered by the allowance of
 `backoff_lower_bound`, excluded by `200 ≤ base` in `backoff_actual_ge_spec`. -/
 example : backoffMs 1 5 Consts.mrpJitterFixed = 1 := by decide
+
+/-! ## Two nodes and an adversarial network: every schedule
+
+`Model/TwoNode.lean` composes the sender's reliability layer, the receiver's window + reliability
+layer + duplicate handling and a multiset network. A *schedule* is any list of events
+(`send`, `retx`, `giveup`, `ackB`, and the adversary's `drop d`, `dup d`, `deliver d` for any
+datagram in flight); `run` executes it, `none` = some event was not enabled. The theorems below hold
+for **every** schedule, by induction over it (`TwoNode.good_run`). -/
+
+open TwoNode in
+/-- **In order, at most once** — for every schedule, on a secure session and on an unsecured one
+(`enc`), the receiving application's log (newest first) is strictly decreasing: no message number
+twice, none after a later one. -/
+theorem twoNode_in_order_at_most_once (a0 b0 : Nat) (enc : Bool) (sai : Option Nat) (evs : List Ev) (s : Sys)
+    (h : run (init a0 b0 enc sai) evs = some s) : s.app.Pairwise (· > ·) := by
+  obtain ⟨_, _, g⟩ := good_run evs (good_init a0 b0 enc sai) h
+  exact g.sorted
+
+open TwoNode in
+/-- **Success only if the peer's stack accepted the message** — for every schedule: a send call that
+returned success was accepted by the receiver's window (its counter is among the accepted ones) and
+handed to the receiving application. -/
+theorem twoNode_success_only_if_accepted (a0 b0 : Nat) (enc : Bool) (sai : Option Nat) (evs : List Ev) (s : Sys)
+    (h : run (init a0 b0 enc sai) evs = some s) (i : Nat) (hok : (i, true) ∈ s.res) :
+    i ∈ s.app ∧ ∃ acc, C04.Inv s.bRx acc ∧ a0 + i ∈ acc := by
+  obtain ⟨accB, _, g⟩ := good_run evs (good_init a0 b0 enc sai) h
+  have hi := g.resOk i hok
+  refine ⟨hi, accB, g.winB, ?_⟩
+  rw [g.accApp]
+  exact List.mem_map.2 ⟨i, hi, rfl⟩
+
+open TwoNode in
+/-- acknowledgements exist only for counters the receiver's window accepted (the half of the
+previous theorem that lives on the wire) -/
+theorem twoNode_acks_only_for_accepted (a0 b0 : Nat) (enc : Bool) (sai : Option Nat) (evs : List Ev) (s : Sys)
+    (h : run (init a0 b0 enc sai) evs = some s) (bc k : Nat) (hin : Dg.ack bc k ∈ s.net) :
+    ∃ i, k = a0 + i ∧ i ∈ s.app := by
+  obtain ⟨accB, _, g⟩ := good_run evs (good_init a0 b0 enc sai) h
+  have := (g.netAck bc k hin).1
+  rw [g.accApp] at this
+  obtain ⟨i, hi, rfl⟩ := List.mem_map.1 this
+  exact ⟨i, rfl, hi⟩
+
+open TwoNode in
+/-- **An acknowledgement that gets through ends the call with success** — in every reachable state
+with a call in progress, delivering an acknowledgement of that message which the sender's window
+lets through makes the call return success at once. -/
+theorem twoNode_ack_through_succeeds (a0 b0 : Nat) (enc : Bool) (sai : Option Nat) (evs : List Ev) (s : Sys)
+    (h : run (init a0 b0 enc sai) evs = some s) (i bc : Nat) (hcur : s.cur = some i)
+    (hin : Dg.ack bc (a0 + i) ∈ s.net) (hw : (window s.aRx bc s.enc).2 = true) :
+    ∃ s', step s (.deliver (.ack bc (a0 + i))) = some s' ∧ s'.cur = none ∧ s'.res = (i, true) :: s.res := by
+  obtain ⟨accB, accA, g⟩ := good_run evs (good_init a0 b0 enc sai) h
+  obtain ⟨_, r, hr, hctr, _⟩ := g.curSome i hcur
+  have hp := (postRecv_ack_pending s.aMrp r bc (a0 + i) hr).1 hctr.symm
+  let s0 : Sys := { s with net := s.net.erase (Dg.ack bc (a0 + i)) }
+  have hw0 : (window s0.aRx bc s0.enc).2 = true := hw
+  have hcur0 : s0.cur = some i := hcur
+  refine ⟨s0.recvAck bc (a0 + i), ?_, ?_, ?_⟩
+  · simp only [step]
+    rw [if_pos (by simpa using hin)]
+  · rw [recvAck_acc s0 bc _ hw0, afterAck_done s0 _ _ i hp.1 hcur0 hp.2]
+  · rw [recvAck_acc s0 bc _ hw0, afterAck_done s0 _ _ i hp.1 hcur0 hp.2]
+
+open TwoNode in
+/-- **Every received duplicate is acknowledged again** — in every reachable state, a copy of a
+message the application already has, when it is delivered, is not shown to the application again
+and is answered with a fresh acknowledgement (a new counter of the receiver). -/
+theorem twoNode_duplicate_acked_again (a0 b0 : Nat) (enc : Bool) (sai : Option Nat) (evs : List Ev) (s : Sys)
+    (h : run (init a0 b0 enc sai) evs = some s) (c i : Nat) (hin : Dg.data c i ∈ s.net) (hdup : i ∈ s.app) :
+    ∃ s', step s (.deliver (.data c i)) = some s' ∧ s'.app = s.app ∧
+      s'.net = Dg.ack s.bCtr c :: s.net.erase (Dg.data c i) ∧ s'.bCtr = s.bCtr + 1 := by
+  obtain ⟨accB, accA, g⟩ := good_run evs (good_init a0 b0 enc sai) h
+  have hc := (g.netData c i hin).1
+  have hacc : c ∈ accB := by
+    rw [g.accApp, hc]
+    exact List.mem_map.2 ⟨i, hdup, rfl⟩
+  have href := (C04.step_refines s.bRx accB c g.winB).1
+  rw [C04.spec_false_mem accB c hacc] at href
+  have heq := window_data_eq g c i hc
+  let s0 : Sys := { s with net := s.net.erase (Dg.data c i) }
+  have href0 : (window s0.bRx c s0.enc).2 = false := by
+    show (window s.bRx c s.enc).2 = false
+    rw [heq]; exact href
+  refine ⟨s0.recvData c i, ?_, ?_, ?_, ?_⟩
+  · simp only [step]
+    rw [if_pos (by simpa using hin)]
+  all_goals rw [recvData_rej s0 c i href0]
+
+open TwoNode in
+/-- **One transmission and one acknowledgement suffice** (secure sessions) — from every reachable
+state in which a call is in progress and one copy of its message is in flight, the schedule "deliver
+that copy, (the application acknowledges,) deliver the acknowledgement" is enabled and ends the call
+with success: the model never needs more than one transmission and one acknowledgement to get through. -/
+theorem twoNode_one_tx_one_ack_suffice (a0 b0 : Nat) (sai : Option Nat) (evs : List Ev) (s : Sys)
+    (h : run (init a0 b0 true sai) evs = some s) (i : Nat) (hcur : s.cur = some i)
+    (hin : Dg.data (a0 + i) i ∈ s.net) :
+    ∃ evs' s', evs'.length ≤ 3 ∧ run s evs' = some s' ∧ (i, true) ∈ s'.res := by
+  obtain ⟨accB, accA, g⟩ := good_run evs (good_init a0 b0 true sai) h
+  obtain ⟨_, r, hr, hctr, _⟩ := g.curSome i hcur
+  have henc : s.enc = true := run_enc evs h
+  -- the sender's window lets a counter through that the receiver has not used yet
+  have hfresh : (window s.aRx s.bCtr s.enc).2 = true := by
+    unfold window
+    rw [henc, (C04.step_refines s.aRx accA s.bCtr (g.winA henc)).1]
+    apply C04.spec_true
+    · intro hm; have := g.accALt henc _ hm; omega
+    · intro a ha; have := g.accALt henc a ha; omega
+  have hp := (postRecv_ack_pending s.aMrp r s.bCtr (a0 + i) hr).1 hctr.symm
+  let s0 : Sys := { s with net := s.net.erase (Dg.data (a0 + i) i) }
+  have heq := window_data_eq g (a0 + i) i rfl
+  have hstep1 : step s (.deliver (.data (a0 + i) i)) = some (s0.recvData (a0 + i) i) := by
+    simp only [step]
+    rw [if_pos (by simpa using hin)]
+  cases hw : (window s.bRx (a0 + i) s.enc).2 with
+  | false =>
+    -- already accepted earlier: acknowledged afresh at once
+    have hw0 : (window s0.bRx (a0 + i) s0.enc).2 = false := hw
+    have h1 := recvData_rej s0 (a0 + i) i hw0
+    let s1 : Sys := { s0 with bRx := (window s0.bRx (a0 + i) s0.enc).1, bCtr := s0.bCtr + 1,
+                              net := Dg.ack s0.bCtr (a0 + i) :: s0.net }
+    let s1' : Sys := { s1 with net := s1.net.erase (Dg.ack s.bCtr (a0 + i)) }
+    have hstepA : step s1 (.deliver (.ack s.bCtr (a0 + i))) = some (s1'.recvAck s.bCtr (a0 + i)) := by
+      simp only [step]
+      rw [if_pos (by simp [s1, s0])]
+    refine ⟨[.deliver (.data (a0 + i) i), .deliver (.ack s.bCtr (a0 + i))], s1'.recvAck s.bCtr (a0 + i), by simp, ?_, ?_⟩
+    · simp only [run]
+      rw [hstep1]
+      simp only
+      rw [h1, hstepA]
+    · have w1 : (window s1'.aRx s.bCtr s1'.enc).2 = true := hfresh
+      have c1 : s1'.cur = some i := hcur
+      rw [recvAck_acc s1' _ _ w1, afterAck_done s1' _ _ i hp.1 c1 hp.2]
+      exact List.mem_cons_self
+  | true =>
+    have hw0 : (window s0.bRx (a0 + i) s0.enc).2 = true := hw
+    have h1 := recvData_acc s0 (a0 + i) i hw0
+    let s1 : Sys := { s0 with bRx := (window s0.bRx (a0 + i) s0.enc).1,
+                              bMrp := (s0.bMrp.postRecv (a0 + i) none true 0).1, app := i :: s0.app }
+    have hack : s1.bMrp.ack = some { ctr := a0 + i, acked := false } := by
+      show (s.bMrp.postRecv (a0 + i) none true 0).1.ack = _
+      rw [postRecv_noAck]
+      rfl
+    have hpu := preSend_unreliable s1.bMrp s1.bCtr none none
+    let s2 : Sys := { s1 with bMrp := (s1.bMrp.preSend s1.bCtr false none none).1, bCtr := s.bCtr + 1,
+                              net := Dg.ack s.bCtr (a0 + i) :: s1.net }
+    have hstep2 : s1.ackStep = some s2 := by
+      unfold Sys.ackStep
+      have hpend : s1.bMrp.isAckPending = true := by simp [Mrp.isAckPending, hack]
+      simp only [hpend, Bool.not_true, Bool.false_eq_true, ↓reduceIte]
+      rw [hpu.2.1]
+      simp only [outAckOf, Mrp.ackCtr, hack, Option.map_some]
+      rfl
+    let s2' : Sys := { s2 with net := s2.net.erase (Dg.ack s.bCtr (a0 + i)) }
+    have hstepA : step s2 (.deliver (.ack s.bCtr (a0 + i))) = some (s2'.recvAck s.bCtr (a0 + i)) := by
+      simp only [step]
+      rw [if_pos (by simp [s2])]
+    have hstepB : step s1 .ackB = some s2 := hstep2
+    refine ⟨[.deliver (.data (a0 + i) i), .ackB, .deliver (.ack s.bCtr (a0 + i))], s2'.recvAck s.bCtr (a0 + i), by simp, ?_, ?_⟩
+    · simp only [run]
+      rw [hstep1]
+      simp only
+      rw [h1, hstepB]
+      simp only
+      rw [hstepA]
+    · have w2 : (window s2'.aRx s.bCtr s2'.enc).2 = true := hfresh
+      have c2 : s2'.cur = some i := hcur
+      rw [recvAck_acc s2' _ _ w2, afterAck_done s2' _ _ i hp.1 c2 hp.2]
+      exact List.mem_cons_self
+
+open TwoNode in
+/-- **Soundness of the trace monitor**: a log of observed events the driver accepts
+(`acceptsTrace`) is the trace of a schedule of the model, so everything proved above about every
+schedule holds for the run that produced it — in particular the log it ends with is in order and
+at-most-once, and every call it reports as successful was accepted by the receiver. -/
+theorem accepted_trace_is_a_run (a0 b0 : Nat) (enc : Bool) (sai : Option Nat) (os : List Obs) (s : Sys)
+    (h : acceptsTrace (init a0 b0 enc sai) os = .ok s) :
+    (∃ evs, run (init a0 b0 enc sai) evs = some s) ∧ s.app.Pairwise (· > ·) ∧
+    ∀ i, (i, true) ∈ s.res → i ∈ s.app := by
+  obtain ⟨evs, hrun⟩ := acceptsTrace_run _ _ _ h
+  exact ⟨⟨evs, hrun⟩, twoNode_in_order_at_most_once a0 b0 enc sai evs s hrun,
+    fun i hi => (twoNode_success_only_if_accepted a0 b0 enc sai evs s hrun i hi).1⟩
+
+/-- The receive window of an unsecured session (`enc = false`, the other half of the harness's
+system-level flows) differs from the secure one only for counters more than the window width behind
+the newest one — out of reach while at most 17 messages have been sent on the session (the bound
+the two-node model puts on an unsecured sender; `TwoNode.window_data_eq`). -/
+theorem unsecured_window_differs_only_behind (s : Dedup.RxState) (c : Nat)
+    (h : s.synced = false ∨ s.max ≤ c + Dedup.L) :
+    Dedup.postRecvPlain s c false = Dedup.postRecvPlain s c true := by
+  unfold Dedup.postRecvPlain
+  rcases h with h | h
+  · simp [h]
+  · by_cases h1 : s.synced = false
+    · simp [h1]
+    · by_cases h2 : c = s.max
+      · simp [h1, h2]
+      · by_cases h3 : c > s.max
+        · simp [h1, h2, h3]
+        · have : s.max - c ≤ Dedup.L := by omega
+          simp [h1, h2, h3, this]
+
+/-- non-vacuity of the two-node theorems: a schedule with a lost first transmission, a
+retransmission, a duplicated datagram whose second copy is acknowledged afresh, and a second message -/
+example :
+    (TwoNode.run (TwoNode.init 100 500)
+      [.send, .drop (.data 100 0), .retx, .dup (.data 100 0), .deliver (.data 100 0), .ackB,
+       .deliver (.data 100 0), .deliver (.ack 500 100), .send, .deliver (.data 101 1), .ackB,
+       .deliver (.ack 501 100), .deliver (.ack 502 101)]).map (fun s => (s.app, s.res, s.net)) =
+    some ([1, 0], [(1, true), (0, true)], []) := by
+  decide
+
+/-- … and on an unsecured session (`enc = false`): same schedule, same outcome -/
+example :
+    (TwoNode.run (TwoNode.init 100 500 false)
+      [.send, .drop (.data 100 0), .retx, .dup (.data 100 0), .deliver (.data 100 0), .ackB,
+       .deliver (.data 100 0), .deliver (.ack 500 100), .send]).map (fun s => (s.app, s.res, s.cur)) =
+    some ([0], [(0, true)], some 1) := by
+  decide
 
 end C09
